@@ -2,7 +2,7 @@
 # tools/runall.sh [quick|thorough] — run every claimed check once and print one line each.
 cd "$(dirname "$0")/.."
 tier=${1:-quick}
-ids=$(python3 -c "import json;print(' '.join(c['property_id'] for c in json.load(open('MANIFEST.json'))['checks']))")
+ids=${IDS:-$(python3 -c "import json;print(' '.join(c['property_id'] for c in json.load(open('MANIFEST.json'))['checks']))")}
 for id in $ids; do
   start=$(date +%s)
   out=$(./check "$id" --tier "$tier" 2>&1); rc=$?
